@@ -243,3 +243,5 @@ for _k, _v in _R16.items():
     TEXTS[_k]["text"] += _v
 
 TEXTS["C05"]["text"] += " Also (R05.i): normalisation assigns `source` and `chars` together."
+
+TEXTS["C04"]["text"] += " Also (R04.h): every posting of every query gram is counted."
